@@ -613,7 +613,62 @@ def r_typestate(ctx, model):
                               "task / the other frame), or the getter returns another quantity", key=f"{g}.typestate")
 
 
+# keyword tables of the result writers: built while the writer is constructed, read-only afterwards (who-may-write table, confirmed by reading
+# cij/io/output/results_writer.py; one line of reason per entry)
+CONSTRUCTION_ONLY = {
+    # ResultsWriter.registry maps every keyword and alias to its packaged rule; write() / write_variables() consult it once per output entry,
+    # so a store made while one entry is written changes what a LATER entry with the same keyword produces (results depend on what was written before)
+    ("cij.io.output.results_writer", "ResultsWriter", "registry"): {"__init__", "_init_rules"},
+}
+
+
+def r_construction_only(ctx, model):
+    from ..effects import is_fresh_expr, MUTATORS
+    for (mname, cname, attr), writers in CONSTRUCTION_ONLY.items():
+        mod = model.mods[mname]
+        if cname not in mod.classes:
+            raise AnalysisError(f"{mname}: class {cname} not found")
+        methods = {q.split(".", 1)[1]: f for q, f in mod.funcs.items() if q.startswith(cname + ".") and q.count(".") == 1}
+        if not any(isinstance(t, ast.Attribute) and t.attr == attr and isinstance(t.value, ast.Name) and t.value.id == "self"
+                   for w_ in writers if w_ in methods for st in ast.walk(methods[w_]) if isinstance(st, ast.Assign) for t in st.targets):
+            raise AnalysisError(f"{cname}: no constructor-time assignment of self.{attr} found")
+        # the listed writers must be reachable only from construction: called from __init__ or from each other, from no other method
+        for mn, f in methods.items():
+            if mn in writers:
+                continue
+            called = {c.func.attr for c in ast.walk(f) if isinstance(c, ast.Call) and isinstance(c.func, ast.Attribute) and isinstance(c.func.value, ast.Name) and c.func.value.id == "self"}
+            late = sorted(called & (writers - {"__init__"}))
+            ctx.check(not late, f"{cname}.{mn} does not re-run the construction-time writers of self.{attr}", model.where(f"{mname}:{cname}.{mn}", f),
+                      expected=f"{sorted(writers)} run during construction only", found=f"calls {late}" if late else "no such call",
+                      explanation=f"{cname}.{mn} calls {late}, which rewrites the keyword table of a writer that is already in use", key=f"{cname}.{mn}.{attr}.rerun")
+            # aliases of the table inside this method: a local bound to self.<attr> itself (not to a fresh copy)
+            alias = {"<self>"}
+            for st in ast.walk(f):
+                if isinstance(st, ast.Assign) and isinstance(st.value, ast.Attribute) and st.value.attr == attr and isinstance(st.value.value, ast.Name) and st.value.value.id == "self":
+                    alias |= {t.id for t in st.targets if isinstance(t, ast.Name)}
+
+            def is_table(n):
+                return (isinstance(n, ast.Attribute) and n.attr == attr and isinstance(n.value, ast.Name) and n.value.id == "self") or (isinstance(n, ast.Name) and n.id in alias)
+
+            stores = []
+            for st in ast.walk(f):
+                targets = st.targets if isinstance(st, (ast.Assign, ast.Delete)) else [st.target] if isinstance(st, (ast.AugAssign, ast.AnnAssign)) else []
+                for t in targets:
+                    for tt in (t.elts if isinstance(t, (ast.Tuple, ast.List)) else [t]):
+                        if isinstance(tt, ast.Subscript) and is_table(tt.value):
+                            stores.append((st, src(tt)))
+                        if isinstance(tt, ast.Attribute) and tt.attr == attr and isinstance(tt.value, ast.Name) and tt.value.id == "self":
+                            stores.append((st, src(tt)))
+                if isinstance(st, ast.Call) and isinstance(st.func, ast.Attribute) and st.func.attr in MUTATORS and is_table(st.func.value):
+                    stores.append((st, src(st.func) + "()"))
+            ctx.check(not stores, f"{cname}.{mn} does not store into self.{attr} (directly or through a local alias)", model.where(f"{mname}:{cname}.{mn}", f),
+                      expected=f"self.{attr} is written by {sorted(writers)} only", found="; ".join(f"line {s_.lineno}: {t_}" for s_, t_ in stores[:3]) or "no store",
+                      explanation=f"{cname}.{mn} stores into the writer's keyword table ({'; '.join(t_ for _, t_ in stores[:3])}): the table outlives the entry being written, so a later entry "
+                                  f"with the same keyword is written by whatever an earlier entry left there - output depends on what was written before", key=f"{cname}.{mn}.{attr}.store")
+
+
 RULES = [
+    ("R14.8", "keyword tables of the result writers are written during construction only (who-may-write table)", r_construction_only),
     ("R14.1", "no write to module-level / class-level / default-argument state; library defaults copied before update", r_module_state),
     ("R14.2", "parameter-mutating functions are called with fresh values; no store into cached property values", r_param_mutation),
     ("R14.3", "iterations over unordered collections have commutative bodies", r_unordered),
